@@ -216,7 +216,10 @@ class UndefinedInitialNumericRemover(engines.engine.Engine, CompilerMixin):
 
             name = new_fluent_name(new_problem, f"is_value_defined_{fluent.name}")
             is_value_defined = Fluent(
-                name, env.type_manager.BoolType(), _signature=fluent.signature
+                name,
+                env.type_manager.BoolType(),
+                _signature=fluent.signature,
+                environment=env,
             )
             new_problem.add_fluent(is_value_defined, default_initial_value=False)
             is_value_defined_fluents[fluent] = is_value_defined
